@@ -1587,7 +1587,7 @@ sc_io_parse_access_mode (sc_io_open_mode_t amode, const char **mode)
     *mode = "wb";
     break;
   case SC_IO_WRITE_APPEND:
-    /* the file is opened in the corresponding write call */
+    *mode = "ab";
     break;
   default:
     SC_ABORT ("Invalid non MPI IO file access mode");
